@@ -52,6 +52,10 @@ func runSizeQ(a *args, res *result) {
 		}
 		r := newRng(a.seed, uint64(i)*8+4)
 		fp := newFP()
+		if sizeTwinsOnly && i%4 == 0 || !sizeTwinsOnly && i%16 == 13 {
+			hotFill(r, res, i)
+			continue
+		}
 		if sizeTwinsOnly && i%2 == 0 {
 			parallelFill(r, res, i)
 			continue
@@ -281,6 +285,92 @@ func parallelFill(r rng, res *result, idx int64) {
 		res.violate(violation{Class: "count", Sig: "Size differs from the number of entries present after parallel inserts into a presized table",
 			Msg: fmt.Sprintf("%s: Size()=%d, Range visits %d, %d keys are present", t.name, size, ranged, want), Case: map[string]any{"case_index": idx, "n": n}})
 	}
+}
+
+// hotFill: the keys that land in the first 64 buckets of a presized table (bucket
+// index read from the table inspector) are inserted by 16 goroutines at once, so
+// that nearly every insert appends an overflow bucket, and buckets that share a
+// counter stripe are written concurrently. Size must then equal the number of
+// keys stored. The table is replaced (Clear: new seed, no overflow buckets) and
+// the pass repeated with another insert method.
+func hotFill(r rng, res *result, idx int64) {
+	vshim.SetVirtual(true)
+	vshim.SetVNow(epoch)
+	flv := mapFlavors
+	if sizeTwinsOnly {
+		flv = []string{"Map", "MapOf[string,any]"}
+	}
+	const universe = 60000
+	sp := mapSpec{Flavor: pick(r, flv), Hint: 8000, NKeys: universe}
+	m := newMap(sp)
+	if m.BucketOf(0) < 0 { // built without the inspector
+		parallelFill(r, res, idx)
+		return
+	}
+	logCase("sizeq round %d hot-fill %s", idx, specName(sp))
+	const G = 16
+	old := runtime.GOMAXPROCS(16)
+	defer runtime.GOMAXPROCS(old)
+	vshim.SetPerturb(0, vshim.NKinds)
+	passes, reported := 24, false
+	for pass := 0; pass < passes; pass++ {
+		var hot []int
+		for k := 0; k < universe; k++ {
+			if m.BucketOf(k) < 64 {
+				hot = append(hot, k)
+			}
+		}
+		how := pass % 4
+		vshim.SetMode(vshim.MCount | vshim.MBudget)
+		vshim.ResetLive()
+		var wg sync.WaitGroup
+		start := make(chan struct{})
+		for g := 0; g < G; g++ {
+			wg.Add(1)
+			go func(g int) {
+				defer wg.Done()
+				<-start
+				for i := g; i < len(hot); i += G {
+					k := hot[i]
+					v := nextVal(k)
+					switch how {
+					case 0:
+						m.Store(k, v)
+					case 1:
+						m.LoadOrStore(k, v)
+					case 2:
+						m.Compute(k, func(any, bool) (any, bool) { return v, false })
+					default:
+						m.LoadOrCompute(k, func() any { return v })
+					}
+					vshim.Progress()
+				}
+			}(g)
+		}
+		close(start)
+		wg.Wait()
+		vshim.SetMode(0)
+		size, ranged := m.Size(), 0
+		m.Range(func(int, any) bool { ranged++; return true })
+		res.count("quiescent_points", 1)
+		res.count("ops", int64(len(hot)))
+		if st, ok := mapStats(m); ok {
+			res.max("hot-fill_max_bucket_entries", int64(st.MaxEntries))
+			res.count("hot-fill_growths", st.TotalGrowths)
+		}
+		if (size != len(hot) || ranged != len(hot)) && !reported {
+			reported = true
+			res.violate(violation{Class: "count", Sig: "Size differs from the number of entries present after parallel inserts into full buckets",
+				Msg: fmt.Sprintf("%s: Size()=%d, Range visits %d, %d keys were stored (16 goroutines, 64 hot buckets, insert method %d)", specName(sp), size, ranged, len(hot), how), Case: map[string]any{"case_index": idx, "pass": pass}})
+		}
+		m.Clear()
+	}
+	res.Evaluations++
+	res.count("family:hot-fill", 1)
+	fp := newFP()
+	fp.addStr("hot-fill" + specName(sp))
+	fp.add(uint64(idx))
+	res.nontrivial(fp.sum())
 }
 
 // shrinkDance: a table grown past its minimum is drained to just above its
